@@ -1,4 +1,5 @@
 import ZmqVerif.Model.Sockets
+import ZmqVerif.Lemmas.WorldHist
 import ZmqVerif.Lemmas.WorldSendStart
 /-!
 # C07 — REQ/REP envelopes are added, preserved and stripped exactly
@@ -152,5 +153,36 @@ theorem C07_world_req_send (fuel : Nat) (w : World) (sid : Nat) (m : Msg) (s : S
     | _, .ready (.err _) => True
     | _, _ => False :=
   reqSendStart_spec fuel w sid m s hs w' f' o h
+
+
+open Zmq.W in
+/-- **Every request a REP hands to the application, over every history** of `recv` polls and arriving bytes: for each
+message `w` consumed from connection `k`, `recv` returned exactly the frames BEHIND the envelope (`repSplit w`: everything
+up to and including the first empty frame is the envelope) — or one error when `w` has no such shape; the payload frames
+are `w`'s own, unmodified. -/
+theorem C07_world_rep_recv {ps0 : Pipes} {m0 : Streams} {ps : Pipes} {m : Streams}
+    {taken : Ident → List Item} {rev : Nat → Bytes} {log : List (Ident × Msg × POut)}
+    (h : RecvRun .rep ps0 m0 ps m taken rev log) :
+    ∀ e ∈ log, (∃ env body, repSplit e.2.1 = some (env, body) ∧ env ++ body = e.2.1 ∧ e.2.2 = .ready (.okMsg body)) ∨
+               (repSplit e.2.1 = none ∧ ∃ x, e.2.2 = .ready (.err x)) := by
+  intro e he
+  rcases h.log_spec e he with ⟨r, h1, h2⟩ | ⟨x, h1, h2⟩
+  · left
+    simp only [deliver, Option.map_eq_some_iff] at h2
+    obtain ⟨⟨env, body⟩, h3, h4⟩ := h2
+    simp only at h4
+    subst h4
+    refine ⟨env, body, h3, ?_, h1⟩
+    unfold repSplit at h3
+    split at h3
+    · cases h3
+    · simp only at h3
+      split at h3
+      · cases h3
+      · simp only [Option.some.injEq, Prod.mk.injEq] at h3
+        rw [← h3.1, ← h3.2, List.take_append_drop]
+  · right
+    simp only [deliver, Option.map_eq_none_iff] at h2
+    exact ⟨h2, x, h1⟩
 
 end Zmq.C07
